@@ -6,7 +6,7 @@ from fractions import Fraction
 
 from .. import gen1, gennd, history1
 from ..core import rs
-from . import coll_parts
+from . import c12_meta, coll_parts
 from .base1 import Hist1Prop
 from .c09 import rand_nd_op
 from ..sharing import sharing
@@ -31,8 +31,12 @@ class C12(Hist1Prop):
             "growth, += -= *= /=, set_dtype, in-place normalize / merge) applied to the source or to the derived object; "
             "after every step every other live histogram is compared with its snapshot. One case in 32: a "
             "HistogramCollection (coll_parts, as in C05): its copy() and the original are changed in turn, members "
-            "snapshotted around sum / normalize_all / normalize_bins / copy / add. non-trivial = the mutation really "
-            "changed its target; distinct = op-list hash")
+            "snapshotted around sum / normalize_all / normalize_bins / copy / add. One case in 8 (stream:nested_meta, c12_meta; oracle only) and, "
+            "enumerated, every (histogram class, derivation) pair: custom meta-data entries holding nested mutable "
+            "containers (and title / name / axis_names edits) on 1-D / 2-D / 3-D / 4-D / adaptive / transformed histograms and "
+            "collections before one derivation of the property's list, then in-place edits inside the nested values through "
+            "the source and through the result; containers shared by identity are observed and then edited. "
+            "non-trivial = the mutation really changed its target; distinct = op-list hash")
     FIELDS = None
     TOL = Fraction(1, 10**5)   # float32 contents after normalisation: independence, not rounding, is the subject
 
@@ -41,6 +45,9 @@ class C12(Hist1Prop):
             return coll_parts.gen(rng)
         if k % 16 == 3:
             return self.gen_coll_adaptive(rng)
+        if k % 8 == 5:
+            # nested mutable meta-data values x every derivation x every histogram class (c12_meta; oracle only)
+            return c12_meta.gen(rng)
         if rng.random() < 0.4:
             return self.gen_nd(rng)
         b, pairs, w = history1.small_bins(rng, adaptive_share=0.45)
@@ -207,9 +214,16 @@ class C12(Hist1Prop):
               "partial_normalize": {"op": "partial_normalize", "h": 0, "axis": 0, "out": 2}}[deriv]
         if deriv in ("T", "partial_normalize") and d != 2:
             dd = {"op": "copy", "h": 0, "out": 2}
+        nested = rng.random() < 0.25
+        if nested:
+            # as in the 1-D histories: a nested (mutable) custom meta-data entry on the source before the derivation
+            ops.append({"op": "set_meta", "h": 0, "key": "tags", "value": ["a", {"run": 1}]})
         ops.append(dd)
         for step_no in range(rng.randint(1, 4)):
             tgt = rng.choice([0, 2, 2, 1]) if step_no else rng.choice([0, 2])
+            if nested and step_no and tgt != 1 and rng.random() < 0.5:
+                ops.append({"op": "append_meta", "h": tgt, "key": "tags", "value": "b", "maybe_refused": True})
+                continue
             kind = rng.choice(["fill", "fill_far", "fill_n", "imul", "idiv", "set_dtype", "iadd", "merge", "normalize"]) if step_no else "fill"
             if kind in ("fill", "fill_far", "fill_n"):
                 # the derived object may have fewer axes: use a marker resolved at run time
@@ -227,10 +241,21 @@ class C12(Hist1Prop):
                 ops.append({"op": "normalize", "h": tgt, "inplace": True})
             else:
                 ops.append({"op": "merge", "h": tgt, "amount": 2, "axis": 0, "inplace": True})
-        return {"kind": "histn", "ops": ops, "tags": ["nd", "deriv:" + deriv], "tolerance": True}
+        return {"kind": "histn", "ops": ops, "tags": ["nd", "deriv:" + deriv] + (["nested_meta"] if nested else []), "tolerance": True}
 
     # the dimension of a derived register is only known at run time: resolve the "_coord" markers step by step
+    def exhaustive_cases(self, tier):
+        # every (histogram class, derivation) pair of the nested meta-data stream
+        return c12_meta.exhaustive(tier)
+
+    def tags(self, case, io):
+        if case.get("sub") == "metanest":
+            return c12_meta.tags(case, io)
+        return super().tags(case, io)
+
     def run_impl(self, case):
+        if case.get("sub") == "metanest":
+            return c12_meta.run_impl(case)
         if case.get("sub") == "coll":
             return coll_parts.run_impl(case)
         if case.get("sub") == "collad":
@@ -287,6 +312,8 @@ class C12(Hist1Prop):
         return implnd.step(s, op, log)
 
     def model_case(self, case, io):
+        if case.get("sub") == "metanest":
+            return None        # the model's histograms carry no meta-data values: oracle only
         if case.get("sub") == "coll":
             return coll_parts.model_case(case, io)
         if case.get("kind") == "histn":
@@ -332,11 +359,17 @@ class C12(Hist1Prop):
     def neighbours(self, case):
         """after a difference: the same history followed by one in-place operation on each register in turn -- if two objects
         share a mutable cell, writing through one of them shows in the other"""
-        if case.get("sub") == "coll":
+        if case.get("sub") in ("coll", "metanest"):
             return
         ops = case["ops"]
         nreg = 1 + max([o.get("out", 0) for o in ops] + [o.get("h", 0) for o in ops])
         nd = case.get("kind") == "histn"
+        # a nested meta-data container shared by identity: an edit inside it through each register in turn
+        for key in sorted({o["key"] for o in ops if o["op"] == "set_meta"}):
+            for r in range(nreg):
+                c = copy.deepcopy(case)
+                c["ops"].append({"op": "append_meta", "h": r, "key": key, "value": "nb", "maybe_refused": True})
+                yield c
         for r in range(nreg):
             for extra in ("fill_in", "fill_far", "imul", "fill_n", "adaptive_fill_far"):
                 c = copy.deepcopy(case)
@@ -370,6 +403,9 @@ class C12(Hist1Prop):
                 yield c
 
     def shrink_candidates(self, case):
+        if case.get("sub") == "metanest":
+            yield from c12_meta.shrink_candidates(case)
+            return
         if case.get("sub") == "coll":
             yield from coll_parts.shrink_candidates(case)
             return
@@ -388,6 +424,8 @@ class C12(Hist1Prop):
             yield c
 
     def oracle(self, case, io):
+        if case.get("sub") == "metanest":
+            return c12_meta.oracle(case, io)
         if case.get("sub") == "coll":
             return coll_parts.oracle(case, io, only=COLL_SIGS)
         outs = io["outs"]
@@ -433,6 +471,8 @@ class C12(Hist1Prop):
         return fails[:6]
 
     def nontrivial(self, case, io):
+        if case.get("sub") == "metanest":
+            return c12_meta.nontrivial(case, io)
         if case.get("sub") == "coll":
             return coll_parts.mutation_changed_target(case, io)
         outs = io["outs"]
